@@ -28,22 +28,69 @@ WindowBoundOK(run) ==
     \A i, j \in 1..Len(g) : i <= j => SumK(g, i, j) <= B + ((g[j].t - g[i].t) \div R) + 1
 FifoOK(run) ==
     LET g == Grants(run) IN \A i, j \in 1..Len(g) : i < j => g[i].id < g[j].id
-CancelledIds == {Cancels("A")[i].id : i \in 1..Len(Cancels("A"))}
-CancellableIds == {Sel("A", "call")[i].id : i \in {x \in 1..Len(Sel("A", "call")) : Sel("A", "call")[x].cancellable}}
-Comparable == CancellableIds = CancelledIds            \* every cancellable call was indeed cancelled in run A
-GrantT(run, id) == LET g == Grants(run) idx == {i \in 1..Len(g) : g[i].id = id} IN
-                   IF idx = {} THEN -1 ELSE g[CHOOSE i \in idx : TRUE].t
-(* time at which the last cancelled call that arrived before `id` gave up *)
-LastCancelBefore(id) ==
-    LET c == Cancels("A") idx == {i \in 1..Len(c) : c[i].id < id} IN
-    IF idx = {} THEN 0 ELSE LET m == CHOOSE i \in idx : \A j \in idx : c[j].t <= c[i].t IN c[m].t
-Max(a, b) == IF a >= b THEN a ELSE b
-CancelNeutralOK ==
-    ~Comparable \/
-    \A i \in 1..Len(Grants("B")) :
-        LET id == Grants("B")[i].id
-            ta == GrantT("A", id)
-        IN ta >= 0 /\ ta <= Max(Grants("B")[i].t, LastCancelBefore(id)) + R
+(***************************************************************************)
+(* Real-time refinement of Limiter.tla (limiter/mod.rs:66-81, 133-149,      *)
+(* 174-229), used to decide "a cancelled wait consumes nothing": the        *)
+(* recorded run is replayed event by event on the reference state           *)
+(*   [ticks, permits, reserved, q, needs, elig]                             *)
+(* in which a cancel only removes the caller from the queue. The head of    *)
+(* the queue computes, at the moment enough reservations are consumed,      *)
+(*   need = ticks + max(0, reserved + k - permits)                          *)
+(* and is granted at the first clock value >= max(that moment, need * r).   *)
+(* (Several releases at the same clock instant may or may not be seen by    *)
+(* that computation: every such possibility is a candidate in `needs`.)     *)
+(* If every grant of run A (with cancelled calls) is explained, cancelled   *)
+(* waits consumed nothing. If run B (no cancels) is not explained either,   *)
+(* the reference is not the implementation's timing: reported as drift.     *)
+(***************************************************************************)
+Evs(run) == SelectSeq(Rec, LAMBDA e : e.e \in {"call", "grant", "release", "cancel"} /\ e.run = run)
+(* every value the (jumping) manual clock took during the run *)
+ClockValues(run) == {Rec[i].t : i \in {j \in 1..Len(Rec) : Rec[j].e \in {"tick", "call", "grant", "release", "cancel"} /\ Rec[j].run = run}}
+TickOf(t) == t \div R
+MaxI(a, b) == IF a >= b THEN a ELSE b
+MinI(a, b) == IF a <= b THEN a ELSE b
+Advance(st, tk) == IF tk < st.ticks THEN st ELSE [st EXCEPT !.permits = MinI(st.permits + (tk - st.ticks), B), !.ticks = tk]
+NeedOf(st) == st.ticks + MaxI(0, st.reserved + st.q[1].k - st.permits)
+HeadEligible(st) == st.q # <<>> /\ B - st.reserved >= st.q[1].k
+(* the head computes its need after event i (first time), or possibly again after a same-instant release *)
+Compute(st, i, t, more) ==
+    IF ~HeadEligible(st) THEN st
+    ELSE IF st.needs = <<>> THEN [st EXCEPT !.needs = <<NeedOf(st)>>, !.elig = i, !.eligT = t]
+    ELSE IF more /\ t = st.eligT THEN [st EXCEPT !.needs = Append(st.needs, NeedOf(st))]
+    ELSE st
+RemoveId(q, id) == SelectSeq(q, LAMBDA c : c.id # id)
+GrantOK(cv, t, st, n) ==        \* the grant at time t is the wake-up of a sleep until need n, computed at time st.eligT
+    LET dl == MaxI(st.eligT, n * R)
+    IN t >= dl /\ ~\E c \in cv : c >= dl /\ c < t
+RECURSIVE Replay(_, _, _, _)
+Replay(ev, cv, i, st) ==
+    IF i > Len(ev) \/ st.bad # 0 THEN st
+    ELSE LET e == ev[i] IN
+         CASE e.e = "call" -> Replay(ev, cv, i + 1, Compute([st EXCEPT !.q = Append(st.q, [id |-> e.id, k |-> e.k])], i, e.t, FALSE))
+           [] e.e = "cancel" ->
+                LET wasHead == st.q # <<>> /\ st.q[1].id = e.id
+                    s1 == [st EXCEPT !.q = RemoveId(st.q, e.id), !.needs = IF wasHead THEN <<>> ELSE st.needs]
+                IN Replay(ev, cv, i + 1, Compute(s1, i, e.t, FALSE))
+           [] e.e = "release" ->
+                LET a == Advance(st, TickOf(e.t))
+                    s1 == [a EXCEPT !.reserved = a.reserved - e.k, !.permits = a.permits - e.k]
+                IN Replay(ev, cv, i + 1, Compute(s1, i, e.t, TRUE))
+           [] e.e = "grant" ->
+                IF st.q = <<>> \/ st.q[1].id # e.id \/ st.needs = <<>> THEN [st EXCEPT !.bad = i]
+                ELSE LET ok == {x \in 1..Len(st.needs) : GrantOK(cv, e.t, st, st.needs[x])}
+                     IN IF ok = {} THEN [st EXCEPT !.bad = i]
+                        ELSE LET n == st.needs[CHOOSE x \in ok : \A y \in ok : y <= x]
+                                 a == Advance(st, n)
+                                 s1 == [a EXCEPT !.reserved = a.reserved + e.k, !.q = Tail(st.q), !.needs = <<>>]
+                             IN Replay(ev, cv, i + 1, Compute(s1, i, e.t, FALSE))
+           [] OTHER -> Replay(ev, cv, i + 1, st)
+Ref0 == [ticks |-> 0, permits |-> B, reserved |-> 0, q |-> <<>>, needs |-> <<>>, elig |-> 0, eligT |-> 0, bad |-> 0]
+(* 0 = every grant explained and nobody left waiting at the end of the (long) drain; else the index of the first unexplained grant, *)
+(* or Len + 1 when a caller that was not cancelled never got its permits                                                       *)
+Unexplained(run) == LET st == Replay(Evs(run), ClockValues(run), 1, Ref0)
+                    IN IF st.bad # 0 THEN st.bad ELSE IF st.q # <<>> THEN Len(Evs(run)) + 1 ELSE 0
+Comparable == Unexplained("B") = 0                             \* the reference explains the run without cancelled calls
+CancelNeutralOK == ~Comparable \/ Unexplained("A") = 0
 (* nothing granted is lost track of: every grant is released with the same k (sanity of the recording) *)
 Verdict ==
     IF ~WindowBoundOK("A") \/ ~WindowBoundOK("B") THEN "more than b + T/r + 1 permits granted in a window"
